@@ -1,4 +1,4 @@
 SPECIFICATION Spec
 CONSTANT Ms = {100, 200, 576, 1188, 1440, 1450, 1460}
-INVARIANT EmitCases
+INVARIANTS EmitCases EmitPersist
 CHECK_DEADLOCK FALSE
